@@ -263,12 +263,23 @@ def compileGoPre (i : E2EIn) : Option Go.GFile := (backStages i).map (·.pre)
 def compileGo (i : E2EIn) : Option Go.GFile := (backStages i).map (·.emitted)
 
 /-- `GoCompileProps.compile_preserves_run` (gocomp): `main` and everything it calls lie in the
-    back end's proved fragment (`GoFrag.closedOK` on the set `goodFns` computes), `main` takes no
-    parameters -/
-def fragGo (i : E2EIn) (b : BackStages) : Bool :=
+    back end's proved fragment without trait objects (`GoFrag.closedOK` on the set `goodFns`
+    computes) -/
+def fragGoPlain (i : E2EIn) (b : BackStages) : Bool :=
   let G := GoFrag.goodFns i.goenv b.afile b.gensym
-  GoFrag.closedOK i.goenv b.afile b.gensym G && G.contains "main" &&
-    b.afile.any (fun f => f.name == "main" && f.params.isEmpty)
+  GoFrag.closedOK i.goenv b.afile b.gensym G && G.contains "main"
+
+/-- `GoCompileProps.compile_preserves_run_dyn` (gocomp): the same with trait objects admitted
+    (`closedOKD` on `goodFnsD`), under its decidable hypothesis on the dispatch table of the ANF
+    program (`implsOK`: `Sem`'s lookup (trait, key of the receiver type, method) finds the function
+    the vtable wrapper calls) -/
+def fragGoDyn (i : E2EIn) (b : BackStages) : Bool :=
+  let G := GoFrag.goodFnsD i.goenv b.afile b.gensym
+  GoFrag.closedOKD i.goenv b.afile b.gensym G && G.contains "main" && GoFrag.implsOK i.goenv b.afile G b.mid.anf
+
+/-- the back end's conjunct of `InE2EFragment`: one of the two, and `main` takes no parameters -/
+def fragGo (i : E2EIn) (b : BackStages) : Bool :=
+  (fragGoPlain i b || fragGoDyn i b) && b.afile.any (fun f => f.name == "main" && f.params.isEmpty)
 
 /-- the fragment of `core_to_go_preserves`: `InPipeFragment` and the back end's fragment -/
 def inE2EFragment (i : E2EIn) : Bool :=
@@ -309,8 +320,9 @@ def goReasons (i : E2EIn) : List String :=
   | none => ["go:anf-not-annotatable"]
   | some b =>
     if fragGo i b then [] else
-    let G := GoFrag.goodFns i.goenv b.afile b.gensym
-    let closed := GoFrag.closedOK i.goenv b.afile b.gensym G
+    let G := GoFrag.goodFnsD i.goenv b.afile b.gensym
+    let closed := GoFrag.closedOKD i.goenv b.afile b.gensym G
+    if closed && G.contains "main" && !GoFrag.implsOK i.goenv b.afile G b.mid.anf then ["go:dispatch-table(implsOK)"] else
     let rec go (st : GoCompile.St) : List AFn → List String
       | [] => ["go:no-main"]
       | f :: rest =>
